@@ -31,9 +31,11 @@ impl PublicKey {
 //@stub PublicKey::from_bytes_impl
 //@stub PublicKey::to_bytes_impl
 //@stub PublicKey::to_compressed_impl
+//@stubrest PublicKey
 }
 impl PrivateKey {
 //@stub PrivateKey::to_public_key_impl
+//@stubrest PrivateKey
 }
 //@struct CipherKeys @ src/ecies/mod.rs clone
 //@struct ECIESCiphertext @ src/ecies/ecies_ciphertext.rs
